@@ -48,6 +48,7 @@ def shapeE : Expr → Expr
   | .regexMap labels _ id => .regexMap (labels.map (fun _ => [])) [] id
   | .mapDrop m ps => .mapDrop (shapeE m) (ps.map (fun p => ([], if p.2.isEmpty then [] else [0])))
   | .labelsFp => .labelsFp
+  | .quantileAgg units scale col => .quantileAgg units scale col
 def shapeEs : List Expr → List Expr
   | [] => []
   | e :: es => shapeE e :: shapeEs es
